@@ -859,29 +859,39 @@ impl Child {
         let mut bad: Option<usize> = None;
         let mut used: Vec<usize> = vec![];
         self.arg_count = 1;
+        // classes first: the first selector that is a misuse wins, later ones are demoted to live
+        for (pi, _) in spec.hs.iter().enumerate() {
+            let want = if bad.is_some() { Cl::Live } else { Cl::from_u8(c.h[pi].c) };
+            cls[pi] = want;
+            if want != Cl::Live && !(want == Cl::Null && spec.null_ok & (1 << pi) != 0) {
+                bad = Some(pi);
+            }
+        }
+        // pass 1: live arguments (may construct handles through the API, which allocates)
         for (pi, &(k, _name, role)) in spec.hs.iter().enumerate() {
-            let sel = c.h[pi];
-            let want = if bad.is_some() { Cl::Live } else { Cl::from_u8(sel.c) };
-            let i = sel.i as usize;
-            let addr = match want {
-                Cl::Live => self.pick_live(k, role, i, &used)?,
+            if cls[pi] == Cl::Live {
+                a[pi] = self.pick_live(k, role, c.h[pi].i as usize, &used)?;
+                used.push(a[pi]);
+            }
+        }
+        // pass 2: the invalid argument last, so that "freed" / "wrong type" is judged against the registry content
+        // at the time of the call (an on-demand construction in pass 1 may have been handed a freed address)
+        for (pi, &(k, _name, _role)) in spec.hs.iter().enumerate() {
+            let i = c.h[pi].i as usize;
+            a[pi] = match cls[pi] {
+                Cl::Live => continue,
                 Cl::Wrong => self.pick_wrong(k, i, &used)?,
                 Cl::Freed => {
-                    let (a, n) = self.pick_freed(k, i)?;
+                    let (addr, n) = self.pick_freed(k, i)?;
                     if k == K::Arr {
                         self.arg_count = n.max(1);
                     }
-                    a
+                    addr
                 }
                 Cl::Null => 0,
                 Cl::Foreign => self.foreign_ptr(i),
             };
-            a[pi] = addr;
-            cls[pi] = want;
-            used.push(addr);
-            if want != Cl::Live && !(want == Cl::Null && spec.null_ok & (1 << pi) != 0) {
-                bad = Some(pi);
-            }
+            used.push(a[pi]);
         }
         self.perform(fi, a, cls, bad, c.v, false)
     }
